@@ -404,6 +404,17 @@ class CatModel:
         # returns False when the refinement contradicts the buffer typestate (path infeasible)
         """scan lemma: a byte read at index i of a buffer with a NUL at index T (i <= T) that turns
         out to be non-zero cannot be the NUL, hence i <= T-1."""
+        # snprintf result learnt to be inside [0, size): the output is NUL-terminated at off + result
+        for a, _ in form.terms:
+            sp = s.ghost.get(('snprintf', a))
+            if sp is not None:
+                region, off, ln = sp
+                ra = Lin.atom(a)
+                if s.facts.lower(ra) >= 0 and s.facts.le(ra.sub(ln), -1) is True and region[0] in ('BUF', 'BUFHI', 'UBUF'):
+                    cap = self.region_cap(region, s, it)
+                    if cap is not None and s.facts.le(off.add(ln).sub(cap), 0) is True:
+                        self.set_term(region, off.add(ra), s)
+                        del s.ghost[('snprintf', a)]
         if not s.prov:
             return True
         for a, _ in form.terms:
